@@ -1,0 +1,125 @@
+//go:build verif
+
+package nsqd
+
+import (
+	"os"
+	"strconv"
+	"strings"
+	"sync"
+	"syscall"
+)
+
+// Under the verif build tag a named point can, on its k-th hit,
+//   - park the calling goroutine until released (deterministic interleavings),
+//   - SIGKILL the own process (hard-kill points), or
+//   - run a callback registered by the harness (e.g. request Exit).
+// Actions are armed in-process through VerifArm*, or for subprocess daemons through
+// the environment: NSQ_VERIF_KILL="name:k" kills the process at the k-th hit of
+// point name (k >= 1).
+
+type verifAction struct {
+	hit     int
+	at      int
+	park    chan struct{} // closed to release
+	reached chan struct{} // closed when the point is reached
+	fn      func()
+	kill    bool
+	done    bool
+}
+
+var (
+	verifMu      sync.Mutex
+	verifActions = map[string][]*verifAction{}
+	verifHits    = map[string]int{}
+	verifEnvOnce sync.Once
+)
+
+func verifLoadEnv() {
+	spec := os.Getenv("NSQ_VERIF_KILL")
+	if spec == "" {
+		return
+	}
+	for _, part := range strings.Split(spec, ",") {
+		i := strings.LastIndex(part, ":")
+		if i < 0 {
+			continue
+		}
+		k, err := strconv.Atoi(part[i+1:])
+		if err != nil || k < 1 {
+			continue
+		}
+		verifActions[part[:i]] = append(verifActions[part[:i]], &verifAction{at: k, kill: true})
+	}
+}
+
+func verifPoint(name string) {
+	verifMu.Lock()
+	verifEnvOnce.Do(verifLoadEnv)
+	verifHits[name]++
+	n := verifHits[name]
+	var fire *verifAction
+	for _, a := range verifActions[name] {
+		if !a.done && a.at == n {
+			a.done = true
+			fire = a
+			break
+		}
+	}
+	verifMu.Unlock()
+	if fire == nil {
+		return
+	}
+	if fire.kill {
+		syscall.Kill(os.Getpid(), syscall.SIGKILL)
+		select {}
+	}
+	if fire.reached != nil {
+		close(fire.reached)
+	}
+	if fire.fn != nil {
+		fire.fn()
+	}
+	if fire.park != nil {
+		<-fire.park
+	}
+}
+
+// VerifHits returns how often a point has been passed.
+func VerifHits(name string) int {
+	verifMu.Lock()
+	defer verifMu.Unlock()
+	return verifHits[name]
+}
+
+// VerifArmPark parks the goroutine that makes the k-th NEXT hit of the point (counted
+// from now). reached is closed when it arrives; call release() to let it continue.
+func VerifArmPark(name string, k int) (reached <-chan struct{}, release func()) {
+	verifMu.Lock()
+	defer verifMu.Unlock()
+	a := &verifAction{at: verifHits[name] + k, park: make(chan struct{}), reached: make(chan struct{})}
+	verifActions[name] = append(verifActions[name], a)
+	var once sync.Once
+	return a.reached, func() { once.Do(func() { close(a.park) }) }
+}
+
+// VerifArmFunc runs fn (in the goroutine that hits the point) at the k-th next hit.
+func VerifArmFunc(name string, k int, fn func()) {
+	verifMu.Lock()
+	defer verifMu.Unlock()
+	verifActions[name] = append(verifActions[name], &verifAction{at: verifHits[name] + k, fn: fn})
+}
+
+// VerifDisarmAll releases every parked goroutine and forgets all armed actions.
+func VerifDisarmAll() {
+	verifMu.Lock()
+	defer verifMu.Unlock()
+	for _, as := range verifActions {
+		for _, a := range as {
+			if a.park != nil && !a.done {
+				a.done = true
+			}
+		}
+	}
+	verifActions = map[string][]*verifAction{}
+}
